@@ -517,6 +517,10 @@ def evaluate(d):
                 break
         # model comparison strictly inside the image, plus whole beats and points outside
         ymin, ymax = _arr(maps[nm], [lo, hi])  # the image, as the implementation sees it
+        if not (ymin == ymin and ymax == ymax and ymin < ymax and abs(ymax - ymin) < 1e7):
+            # the forward map is not even defined / increasing at the ends of the knot range
+            ev.oracle.append("exact: %s is %r at the first and %r at the last key point (%d, %d)" % (nm, ymin, ymax, lo, hi))
+            ymin, ymax = 0.0, 1.0
         eps = 1e-9 * max(1.0, abs(ymin), abs(ymax))
         qs = [y for y in ys if y == y and ymin + eps < y < ymax - eps]
         qs += [float(k) for k in range(math.ceil(ymin + eps), math.floor(ymax - eps) + 1)][:400]
@@ -559,6 +563,8 @@ def evaluate(d):
     except Exception as e:
         ev.oracle.append("raised: reading musical beats: %r" % (e,))
 
+    # failures matching the open finding go last, so that a replay shows a new failure first
+    ev.oracle.sort(key=lambda f: f.startswith("origin-at-time-0"))
     ev.key = "%d|%r|%r|%r|%s" % (d["q0"], d["qd"], d["ops"], sp.m1, d["first"])
     ev.info = {"late": first > 0}
     return ev
@@ -569,7 +575,9 @@ def finding_key(d, failure):
 
 
 def shrink(d):
-    if d.get("kind") != "part":
+    if d.get("kind") != "part" or d["first"] > 0:
+        # a late-starting part always shows the open finding F-C02-1: shrinking it with the predicate
+        # "some oracle failure" would drift to that finding, so such cases are kept as found
         return
     for k in ("qd", "ops", "notes", "halves"):
         for i in range(len(d[k])):
